@@ -3,6 +3,7 @@ package main
 import (
 	"bytes"
 	"fmt"
+	"io"
 	"os"
 	"path/filepath"
 	"sort"
@@ -213,12 +214,17 @@ func (s *session) open() {
 
 // apply runs the real ApplyDiff on the open handle.
 func (s *session) apply(lines []string) (res applyResult) {
+	return s.applyFrom(bytes.NewReader(diffText(lines)))
+}
+
+// applyFrom runs the real ApplyDiff on the open handle with the diff coming from r.
+func (s *session) applyFrom(r io.Reader) (res applyResult) {
 	defer func() {
 		if p := recover(); p != nil {
 			res.panicked = p
 		}
 	}()
-	res.err = s.db.ApplyDiff(bytes.NewReader(diffText(lines)), dnsfix.Serial)
+	res.err = s.db.ApplyDiff(r, dnsfix.Serial)
 	return res
 }
 
